@@ -304,6 +304,15 @@ Theorem C09_gathered_names_all_layers : forall hs lg ft (s0 : mstate) (ss : list
     (n ∈ names <-> Exists (fun s => is_dir s p /\ is_Some (s !! (p ++ [n]))) (s0 :: ss)).
 Proof. exact gathered_names. Qed.
 
+(** bytes: opening a path hands out the FIRST holder's bytes; the only change anywhere is that holder's access time
+    (MemoryFS stamps it on open: finding D20 for C08) and the new handle *)
+Theorem C09_open_file_first_holder : forall lg ft hs (s0 : mstate) (ss1 : list mstate) (s : mstate) (ss2 : list mstate) (p : path) f,
+  p <> [] -> s0 !! p = None -> s0 !! whiteout_path (vk 0, []) p = None ->
+  Forall (fun s' => s' !! p = None) ss1 -> s !! p = Some f -> f_type f = File ->
+  run bhandler (ovl_impl (vk 0, []) (lowers 1 (length (ss1 ++ s :: ss2))) (COpenFile p)) (nstore hs lg ft (s0 :: ss1 ++ s :: ss2)) =
+  (nstore (hs ++ [HMemReader (f_content f) 0]) lg ft (s0 :: ss1 ++ <[p := touched f]> s :: ss2), Ok (length hs)).
+Proof. exact open_file_first_holder. Qed.
+
 (** four layers: /x is a FILE in the second lower layer and a DIRECTORY in the third; the overlay shows the file *)
 Example C09_layers_example :
   let file := mkMemFile File [104%N; 105%N] TAuto (Some TAuto) (Some TAuto) in
@@ -338,3 +347,4 @@ Print Assumptions C09_metadata_of_first_holder.
 Print Assumptions C09_layers_example.
 Print Assumptions C09_exists_through_layers.
 Print Assumptions C09_gathered_names_all_layers.
+Print Assumptions C09_open_file_first_holder.
